@@ -9,7 +9,7 @@ mod extract;
 mod types;
 
 pub use build::{build, build_canonical, default_value};
-pub use extract::{extract, rows_of, schema_sig, validate_batch};
+pub use extract::{exceeds, extract, rows_of, schema_sig, set_physical_nullability, type_sig, validate_batch};
 pub use types::{gen_schema, gen_type, gen_value, Leaf, Profile, StrStyle};
 
 use arrow_array::{ArrayRef, RecordBatch, RecordBatchOptions};
